@@ -9,6 +9,7 @@
 # obtain one at https://mozilla.org/MPL/2.0/.
 
 from __future__ import print_function, division, absolute_import
+from numbers import Real
 import numpy as np
 
 from odl.operator.operator import (
@@ -331,7 +332,7 @@ class Functional(Operator):
                     ConstantFunctional)
                 return ConstantFunctional(self.domain,
                                           self(self.domain.zero()))
-            elif self.is_linear:
+            elif self.is_linear and isinstance(other, Real):
                 return FunctionalLeftScalarMult(self, other)
             else:
                 return FunctionalRightScalarMult(self, other)
